@@ -511,11 +511,20 @@ class Engine:
             return simp(z3.Or(*[z3.And(g, self.identical(x, b, st)) for g, x in a.alts]))
         if isinstance(b, VUnion):
             return simp(z3.Or(*[z3.And(g, self.identical(a, x, st)) for g, x in b.alts]))
-        mixed = (isinstance(a, VObj) and isinstance(b, (VRef, VFunc))) or (isinstance(b, VObj) and isinstance(a, (VRef, VFunc)))
+        mixed = (isinstance(a, VObj) and isinstance(b, (VRef, VFunc, VClass))) or (isinstance(b, VObj) and isinstance(a, (VRef, VFunc, VClass)))
         if mixed:
             from .heapmodel import box
             return box(self, st, a) == box(self, st, b)
+        self._no_untyped_opaque(a, b, "is")
         return values_identical(a, b)
+
+    @staticmethod
+    def _no_untyped_opaque(a, b, op):
+        """An opaque object of unknown type compared with a value of another representation: the answer is not known
+        (it may be a str, an int ...); never silently `False`."""
+        for x, y in ((a, b), (b, a)):
+            if isinstance(x, VObj) and x.cls in (None, "Any") and not isinstance(y, (VObj, VNoneT)):
+                raise Unsupported(f"`{op}` between an untyped opaque object and {type(y).__name__}")
 
     def struct_eq(self, a, b, st):
         """Python == : structural for tuples/lists, dataclass instances and protobuf message records."""
@@ -534,6 +543,14 @@ class Engine:
                 if oa.cls is not ob.cls:
                     return z3.BoolVal(False)
                 return simp(z3.And(*[self.struct_eq(oa.f[k], ob.f[k], st) for k in oa.f if not k.startswith("__")] or [z3.BoolVal(True)]))
+        for x, y in ((a, b), (b, a)):
+            if isinstance(x, VObj) and isinstance(y, (VRef, VFunc, VClass)):
+                o = st.heap[y.oid] if isinstance(y, VRef) else None
+                if o is not None and (o.kind != "inst" or (isinstance(o.cls, type) and (_dc.is_dataclass(o.cls) or "__eq__" in o.cls.__dict__))):
+                    raise Unsupported("== between an opaque object and a structured heap value")
+                from .heapmodel import box
+                return box(self, st, a) == box(self, st, b)         # objects without __eq__: == is identity
+        self._no_untyped_opaque(a, b, "==")
         a2, b2 = self.devalue(a, st), self.devalue(b, st)
         if isinstance(a2, VTuple) and isinstance(b2, VTuple):
             if len(a2.items) != len(b2.items):
